@@ -308,8 +308,9 @@ def build_cpp(name, src, defines=(), san=True, extra=(), opt=None, std_inc=True,
             flags = [f for f in flags if not f.startswith("-O")] + [opt]
         if os.environ.get("VERIF_COVERAGE"):
             # diagnostic builds for tools/coverage.py: which lines of Include/ the checks' cases reach (never used for a verdict)
-            os.makedirs(os.path.join(BUILD, "cov"), exist_ok=True)
-            exe = os.path.join(BUILD, "cov", name)
+            covdir = os.environ["VERIF_COVERAGE"] if os.environ["VERIF_COVERAGE"].startswith("/") else os.path.join(BUILD, "cov")
+            os.makedirs(covdir, exist_ok=True)
+            exe = os.path.join(covdir, name)
             flags = [f for f in flags if not f.startswith("-O")] + ["-O0", "--coverage"]
         key = tree_hash([INC, srcp, os.path.join(ROOT, "cpp", "common.hpp")], " ".join(flags))
         keyf = exe + ".key"
